@@ -225,7 +225,7 @@ def _from_data(ctx, case_type, terms2, metas2, what, tag, premise=True):
         ctx.count("float_stream", "from-data:" + what)
     if premise:
         noprem = coq_bad_cases(ctx.cid, HEADER_RUN, case_type, case_type.replace("_case", "_case_premise"), terms2, shard=30, tag=tag + "prem")
-        ctx.notes[f"binary64_from_data_premise({what})"] = f"cusum_trace_ok holds on every cut read in {len(terms2) - len(noprem)} of {len(terms2)} cases"
+        ctx.notes[f"binary64_from_data_premise({what})"] = f"the boolean premise of the binary64 CUSUM end-to-end theorems (every cut read stays in the normal range, finite threshold) holds in {len(terms2) - len(noprem)} of {len(terms2)} cases"
     for i in coq_bad_cases(ctx.cid, HEADER_RUN, case_type, case_type.replace("_case", "_case_ok"), terms2, shard=30, tag=tag)[:20]:
         mt = metas2[i]
         ctx.mismatch(f"{what} on one float column (n={mt['n']}, threshold={mt['threshold']!r}): the binary64 kernel twin followed by the generic search loop on primitive floats "
